@@ -65,3 +65,10 @@ PROPS["C06"] = {
     "assumptions": ["panics are compared by site through the panic message (harness catch_unwind); the harness is built with overflow checks and debug assertions on",
                     "process abort by stack exhaustion is C19's subject; memory exhaustion is not modelled"],
 }
+
+PROPS["C11"] = {
+    "deps": ["Proofs/C11.vo"],
+    "props": "Props/C11.v",
+    "suites": [("walk", 1000, 30000)],
+    "assumptions": ["well-formed lists are accepted unless a panic class of C06 intervenes (unimplemented inversion, more than 99 closures open)"],
+}
